@@ -29,9 +29,25 @@ with native circuits and width-generic functions, one source under different
 input sizes and parameters), every history in its own process (one Compiler,
 fresh Compilers, mixed, cross-facility), all compilations of a program compared
 byte for byte, a difference minimised to a concrete history; correspondence of
-the folded wide constants along real histories (op phist).  A new package-level
+the folded wide constants along real histories (op phist); (6) ALL STEP KINDS
+(Model/ProcSteps.lean, harness pacts.go): what a process did before a
+compilation is not only compilations - a history step has a kind (Compile,
+CompileFile, CompileSSA, streaming garbler session via Stream / StreamFile /
+CompileSSA+Program.Stream against an in-process evaluator, Compile+Compute,
+Compile+Garbler/Evaluator, Compile+Marshal+Parse); theorems: if every kind
+leaves what a compilation reads unchanged the output is history independent
+over histories of all kinds, the code as it is (a new wire allocator per
+program) does, a process-wide allocator pool is invisible iff its Release
+empties the free lists or no streaming session ran (witness: recycled,
+already numbered input-wire arrays); oracle: per sibling group one more child
+process `C v; K1 a1; C v; K2 a2; C v'; ...` (GOGC=off, every other one
+GOMAXPROCS=1, so pooled objects survive) and one over all groups; every circuit
+compiled inside a step of any kind joins the comparison of all compilations of
+its program, all steps of one (program, kind, inputs) are compared;
+correspondence (op ahist): folded constants, NumWires-NumGates and the results
+of sessions / Compute along real histories over all kinds.  A new package-level
 variable in the compile path focuses the widened history search on the
-facilities of its package.
+facilities of its package, with every kind and same-/other-width actors.
 """
 import hashlib
 import json
@@ -70,6 +86,11 @@ THEOREMS = [
     "Mpc.C08_memo_coarse_key_history_dependent",
     "Mpc.C08_divider_keyed_by_widths_history_independent",
     "Mpc.C08_divider_keyed_by_max_width_history_dependent",
+    "Mpc.C08_all_step_kinds_history_independent",
+    "Mpc.C08_stepNowK_independent_of_process_state",
+    "Mpc.C08_pooled_allocator_keeping_free_lists_history_dependent",
+    "Mpc.C08_pooled_allocator_invisible_without_streaming",
+    "Mpc.C08_pooled_allocator_cleared_history_independent",
 ]
 
 # process-state histories (harness pstate.go): generator families and, per package of the compile path, the
@@ -81,7 +102,17 @@ PKG_FAMILIES = {
     "compiler/mpa": ["wide-const-divmod", "wide-const-arith", "wide-const-bits"],
     "compiler/circuits": ["wide-const-divmod", "wide-const-arith", "runtime-ops", "library"],
     "circuit": ["wide-const-divmod", "wide-const-arith", "runtime-ops", "library", "sizes-params"],
+    # every compilation and every streaming session runs through these packages; what differs between requests
+    # there is the value / wire / type population: widths and signedness, aggregates, instantiated library functions,
+    # input sizes
+    "compiler/ssa": ["runtime-ops", "const-aggregates", "library", "sizes-params", "wide-const-bits"],
+    "compiler/ast": ["runtime-ops", "const-aggregates", "library", "sizes-params", "wide-const-arith"],
+    "compiler": ["const-aggregates", "library", "sizes-params"],
+    "compiler/utils": ["runtime-ops", "library", "sizes-params"],
+    "types": ["runtime-ops", "const-aggregates", "sizes-params"],
 }
+# step kinds of the activity histories (harness pacts.go)
+PSTATE_KINDS = ["stream", "stream-file", "ssa-stream", "compute", "garble-eval", "roundtrip", "compile-file", "compile-ssa"]
 
 # ------------------------------------------------------------------ expected facts
 # Every `range` over a map in compiler, compiler/ast, compiler/ssa,
@@ -388,8 +419,9 @@ def pstate_run(ctx, seed, extra="", tag="", prefix="", timeout=900):
                meta.get("pstate_processes") is not None and meta.get("pstate_processes_ok") == meta.get("pstate_processes"),
                json.dumps(meta.get("harness_log", ""))[:2000])
     if os.path.exists(ops) and os.path.getsize(ops) > 0:
-        ctx.correspond("folded wide constants of every compilation of real one-process histories = "
-                       "outputsAlong stepNow (seed %d%s)" % (seed, " " + extra if extra else ""), ops, out)
+        ctx.correspond("folded wide constants of every compilation of real one-process histories = outputsAlong stepNow; "
+                       "constants, NumWires-NumGates and results of every step of real histories over all step kinds = "
+                       "outputsAlongK stepNowK (seed %d%s)" % (seed, " " + extra if extra else ""), ops, out)
         distinct_ops(ctx, ops)
     return meta
 
@@ -434,6 +466,22 @@ def run(ctx):
                    json.dumps({k: v for k, v in c0.items() if k.startswith("pstate_")}))
         ctx.oblige("model ops of kind phist were produced (folded constants along histories)", c0.get("op_phist", 0) > 0,
                    json.dumps({k: v for k, v in c0.items() if k.startswith("op_phist")}))
+        ctx.oblige("histories over all step kinds: steps of every kind ran to the end, streaming sessions recycled arguments, "
+                   "compilations were compared right after streaming sessions and after the other activities, circuits "
+                   "compiled inside Compute / Garble-Eval / round-trip steps joined the comparisons",
+                   all(c0.get("pstate_steps_ok_" + k, 0) > 0 for k in PSTATE_KINDS) and
+                   c0.get("pstate_streaming_sessions_recycling_arguments", 0) > 0 and
+                   c0.get("pstate_comparisons_after_streaming_session", 0) >= 10 and
+                   c0.get("pstate_comparisons_after_activities", 0) >= 40 and
+                   c0.get("pstate_comparisons_step_outputs", 0) >= 10 and
+                   all(c0.get("pstate_compilations_inside_" + k, 0) > 0 for k in ("compute", "garble-eval", "roundtrip", "compile-file")) and
+                   all(c0.get("pstate_processes_" + k, 0) > 0 for k in ("activities", "cross-activities")),
+                   json.dumps({k: v for k, v in c0.items() if k.startswith("pstate_step") or "activities" in k or "streaming" in k
+                               or k.startswith("pstate_compilations_inside")}))
+        ctx.oblige("model ops of kind ahist were produced (histories over all step kinds: compile, streaming session, "
+                   "Compute, Garble/Eval, round trip, CompileSSA)",
+                   c0.get("op_ahist", 0) > 0 and all(c0.get("op_ahist_steps_" + k, 0) > 0 for k in "CSEGRA"),
+                   json.dumps({k: v for k, v in c0.items() if k.startswith("op_ahist")}))
         newpk = new_pkgvar_packages(m.get("facts") or {})
         ctx.coverage["packages_with_new_package_level_variables"] = newpk
         if ctx.widen:
@@ -444,7 +492,7 @@ def run(ctx):
             for k in range(1, 4):
                 if ctx.fails:
                     break
-                pstate_run(ctx, ctx.seed + 100 * k, extra="focus=%s;scale=%d;heavy=1" % (",".join(fams), 1 if len(fams) > 3 else 2),
+                pstate_run(ctx, ctx.seed + 100 * k, extra="focus=%s;scale=%d;heavy=1;acts=full" % (",".join(fams), 1 if len(fams) > 3 else 2),
                            tag="-widen", prefix="widen%d_" % k)
         runs = [(ctx.seed, 6 if quick else 8, [])]
         if not quick:
@@ -509,7 +557,13 @@ def run(ctx):
         "(operand sizes with equal maximum, swapped sizes, values, type width, signedness, operator set, input sizes, "
         "parameter variant) plus an evictor; per group three child processes (one Compiler forward/reversed/shuffled; "
         "fresh Compilers reversed/forward; mixed) and two processes over all groups; all compilations of one program "
-        "compared (circuit bytes + SSA listing). distinct = distinct dc/init/hist/phist op lines")
+        "compared (circuit bytes + SSA listing). Histories over all step kinds: per group one more child process "
+        "`C v; K1 a1; C v; K2 a2; C v'; ...` with K running through stream / stream-file / ssa-stream / compute / "
+        "garble-eval / roundtrip / compile-file / compile-ssa (the streaming kinds twice; thorough tier and widened "
+        "search: every kind again with same-width and other-width actors), v the victim and a sibling of its argument "
+        "widths, a_i siblings, seeded inputs; GOGC=off, alternately GOMAXPROCS=1; one process over all groups; every "
+        "circuit compiled inside a step joins the comparison of its program, steps of one (program, kind, inputs) are "
+        "compared as a whole. distinct = distinct dc/init/hist/phist/ahist op lines")
     ctx.trusted += vlib.DEFAULT_TRUSTED + [
         "go/parser + go/types fact extractor in harness/cmd/c08/facts.go (source importer for the standard library)",
         "the SSA-listing canonicaliser/classifier in harness/cmd/c08/compile.go (names the kind of a difference in the report; every difference is a violation)",
@@ -524,6 +578,14 @@ def run(ctx):
         "state: it transfers to the code through the pinned list of package-level variables (none is a cache) and is "
         "probed by the process-state oracle on the enumerated facility families; facilities outside these families "
         "(and process state outside Go package-level variables, e.g. files) are not covered",
+        "C08_stepNowK_independent_of_process_state is about stepNowK, which makes a new wire allocator per program and "
+        "hands the state on untouched by definition: it transfers to the code through the pinned package-level "
+        "variables (a pool is one), the ahist correspondence (folded constants, NumWires-NumGates = sum of the argument "
+        "widths, results of sessions / Compute) and the activity histories; step kinds outside the enumerated ones "
+        "(GMW / BMR sessions, apps/garbled's main loop itself, sha2pc) and histories longer than the generated ones "
+        "are not covered; the allocator model covers the input wires only",
+        "a history whose effect depends on which P finds a pooled object is re-run up to 3 times when it is minimised "
+        "and replayed",
         "the value model of wide constant folds (Model/Mpa.lean large paths, owned by C12) is used for unsigned "
         "uint<w> contexts with non-negative literals only",
         "order dependence outside the enumerated map-range sites (os.File.Readdirnames order of a package directory, "
@@ -557,6 +619,9 @@ def run(ctx):
         "groups per stateful facility of the compile path, each history in its own process, a difference minimised "
         "to a concrete history (replay = that history + the program alone in a fresh process; bin/check --replay "
         "re-runs exactly these two processes); the Lean step model (source, parameters, process state) reproduces the "
-        "folded wide constants of every compilation of the real histories; "
+        "folded wide constants of every compilation of the real histories; histories over ALL step kinds (streaming "
+        "sessions, CompileFile, CompileSSA, Compute, Garble/Eval, Marshal/Parse between compilations; "
+        "C08_all_step_kinds_history_independent, C08_stepNowK_independent_of_process_state, the allocator-pool "
+        "theorems) with the ahist correspondence of the step model; "
         "any difference is a violation (no known finding is tolerated any more); the replay holds the program and both "
         "SSA listings.")
